@@ -27,13 +27,13 @@ DRIVER_MODULES = ["PsutilModel.Model.C16Gen", "PsutilModel.Spec.C16"]
 NEEDS_EXT = True
 TRUSTED = [
     "C16 world model: contents are abstracted to version numbers (decoding is C06/C13's business); /proc/<pid>/stat is always readable; a gone process never comes back and a zombie never revives (PID reuse: C01/C02); a zombie's smaps and cmdline are empty files (measured, DESIGN A.8); smaps_rollup does not exist in the modelled world (the documented fallback to smaps is what is exercised)",
-    "C16 concurrent model: one object's `_cache` (instantiated for the front-end object with 4 activations and for the platform object with 3); a front-end memoised method whose platform method is itself memoised is the composition of two instances and is exercised sequentially only; CPython executes each of LOAD_ATTR / BINARY_SUBSCR / STORE_SUBSCR / STORE_ATTR / DELETE_ATTR atomically under the GIL (free-threaded builds out of scope)",
-    "C16 scheduler (harness/props/c16_sched.py): sys.settrace with f_trace_opcodes hands a baton between real threads at the shared-state bytecodes; the schedule space is sampled (quick) or enumerated for one plain call against one enter/exit pair (thorough)",
-    "C16 bounded-pre-emption explorer (harness/props/c16_preempt.py): model-independent; every bytecode of memoize_when_activated's closures, Process.oneshot and oneshot_enter/exit is a scheduling point; schedules with <= 2 pre-emptions (sampled in quick, all in thorough/search) and the 3-pre-emption schedules where a plain call straddles two program items of the block owner; oracle = the property's clauses on content versions (no spurious error; in-block value read in that block; plain value from the call's duration or an overlapping block)",
+    "C16 concurrent models: one object's `_cache` (Model/C16Conc.lean, instantiated for the front-end object with 4 activations and for the platform object with 3, incl. the pre-repair wrapper shapes) and both `_cache` attributes together (Model/C16Conc2.lean: front-end wrapper over platform wrapper, activation/deactivation order from the facts actOrder/deactOrder, repaired wrapper shape only); nested blocks / RLock re-entrance and methods reading two sources are not steps of these models; CPython executes each of LOAD_ATTR / BINARY_SUBSCR / STORE_SUBSCR / STORE_ATTR / DELETE_ATTR atomically under the GIL (free-threaded builds out of scope)",
+    "C16 scheduler (harness/props/c16_sched.py): sys.settrace with f_trace_opcodes hands a baton between real threads at the shared-state bytecodes; the schedule space is sampled (quick) or enumerated for one plain call against one enter/exit pair (thorough, one-level programs); for the two-level model the parks of both objects are level-tagged and the schedules are sampled in both tiers",
+    "C16 bounded-pre-emption explorer (harness/props/c16_preempt.py): model-independent; every bytecode of memoize_when_activated's closures, Process.oneshot and oneshot_enter/exit is a scheduling point; 19 programs (explicit blocks, as_dict as the owner, nested block, exit by exception, callers on another source, methods crossing both cache levels, three threads); schedules with <= 2 pre-emptions (sampled in quick; all in thorough for the original programs, capped per new program; all during a failing-input search) and the 3-pre-emption schedules where a plain call straddles two program items of the block owner; oracle = the property's clauses on content versions (no spurious error; in-block value read in that block; plain value from the call's duration or an overlapping block)",
 ]
 MANIFEST = {
-    "level_text": "Machine-checked Lean 4 proofs over a model of memoize_when_activated / oneshot() / as_dict(): for EVERY sequential history (enter, exit normally or by exception, nested blocks, calls, content changes, EACCES, zombie, gone, as_dict anywhere) the model refines a specification that freezes the first successful read of each block-cached source (C16_value_at_first_read), each of stat/status/smaps is read at most once per outermost block (C16_read_at_most_once), the next call after the block is fresh (C16_fresh_after_exit), nesting is a no-op (C16_nested_noop), as_dict validates before reading, returns exactly the requested keys and applies the AccessDenied/ZombieProcess/NoSuchProcess/NotImplementedError policy (C16_as_dict_*); and over ALL interleavings of any number of threads of a bytecode-granularity step model no AttributeError/KeyError escapes (C16_no_spurious_error) and every returned value was the source's content at an instant between the activation of the block whose cache served it (or the start of the call) and the return (C16_value_valid_at_some_moment). The literal cross-thread clause (valid at a moment of the call itself) is false of oneshot's design and is a recorded finding with a replayed schedule. The model is tied to the code by translator facts (decorator placement, activate/deactivate lists, nesting test, finally, wrapper shape, method→file map, as_dict policy) feeding the proof obligation cfg_good, and by differential runs of the real Process over a fake procfs with per-file open counting and of real threads under a deterministic bytecode scheduler.",
-    "level_note": "Partial w.r.t. threads: the theorems cover every interleaving of the MODEL's step relation; the implementation is exercised on sampled (quick) / enumerated one-call-vs-one-block (thorough) schedules. Trusted: Lean kernel + {propext, Classical.choice, Quot.sound}; translator; harness; GIL atomicity of single bytecodes; world model as listed.",
+    "level_text": "Machine-checked Lean 4 proofs over a model of memoize_when_activated / oneshot() / as_dict(): for EVERY sequential history (enter, exit normally or by exception, nested blocks, calls, content changes, EACCES, zombie, gone, as_dict anywhere) the model refines a specification that freezes the first successful read of each block-cached source (C16_value_at_first_read), each of stat/status/smaps is read at most once per outermost block (C16_read_at_most_once), the next call after the block is fresh (C16_fresh_after_exit), nesting is a no-op (C16_nested_noop), as_dict validates before reading, returns exactly the requested keys and applies the AccessDenied/ZombieProcess/NoSuchProcess/NotImplementedError policy (C16_as_dict_*); and over ALL interleavings of any number of threads of a bytecode-granularity step model no AttributeError/KeyError escapes (C16_no_spurious_error) and every returned value was the source's content at an instant between the activation of the block whose cache served it (or the start of the call) and the return (C16_value_valid_at_some_moment). The same two theorems are proved for a model of BOTH cache levels together (front-end `_cache` over `_proc._cache`, activated in the order oneshot() does it: C16_no_spurious_error_two_level, C16_value_valid_at_some_moment_two_level, C16_lock_protocol_two_level), C16_reads_characterised states exactly which reads go through the block cache (cached routines: at most once) and which are fresh by design (identity probe of ppid(), zombie probe), and C16_as_dict_per_name_policy the per-name exception policy. The literal cross-thread clause (valid at a moment of the call itself) is false of oneshot's design and is a recorded finding with a replayed schedule; so is the stability of the owner's first-read value against a concurrent plain caller's later store (C16_owner_first_read_counterexample). The model is tied to the code by translator facts (decorator placement, activate/deactivate lists, nesting test, finally, wrapper shape, method→file map, as_dict policy) feeding the proof obligation cfg_good, and by differential runs of the real Process over a fake procfs with per-file open counting and of real threads under a deterministic bytecode scheduler.",
+    "level_note": "Partial w.r.t. threads: the theorems cover every interleaving of the MODELS' step relations (one level; two levels); the implementation is exercised on sampled (quick) / enumerated one-call-vs-one-block (thorough, one level) schedules under the model-following scheduler and on bounded-pre-emption schedules of 19 programs under the model-independent explorer. Trusted: Lean kernel + {propext, Classical.choice, Quot.sound}; translator; harness; GIL atomicity of single bytecodes; world model as listed.",
     "technique": "Lean 4 refinement proof by simulation over histories + invariant proof over a small-step interleaving semantics + translator-fed proof obligation + differential correspondence (fake procfs with open counting; settrace bytecode scheduler)",
     "design_ref": "DESIGN.md §5 C16",
 }
@@ -452,6 +452,10 @@ def asdict_enumeration(orders):
                 h = [] if st == "alive" else [{"op": "setstate", "st": st}]
                 for ctor in (("list", "set") if not orders and len(raw) == 2 else ("list",)):
                     yield h + [{"op": "asdict", "kind": "names", "raw": raw, "env": [["nice", out]], "ctor": ctor}]
+    # several invalid names at once: ValueError whose message names every one of them
+    for raw in (["bogus", "oneshot"], ["name", "bogus", "kill"], ["_cache", "Name", "as_dict", "ppid"], ["bogus", "bogus"]):
+        for ctor in ("list", "tuple", "set", "frozenset"):
+            yield [{"op": "asdict", "kind": "names", "raw": raw, "env": [], "ctor": ctor}, {"op": "call", "m": "name"}]
     for nc in NONCOLL:
         yield [{"op": "asdict", "kind": "noncoll", "raw": [], "env": [], "nc": nc}, {"op": "call", "m": "name"}]
     for out in ["ok", "ad", "zombie", "nsp", "notimpl"]:
@@ -475,7 +479,8 @@ def gen_asdict(rng, impl, flavour=None):
     pool = MODELLED + ["pid"] + UNMODELLED_SAMPLE
     raw = [rng.choice(pool) for _ in range(rng.randrange(1, 7))]
     if flavour == "invalid":
-        raw.insert(rng.randrange(len(raw) + 1), rng.choice(["bogus", "oneshot", "kill", "as_dict", "_cache", "Name"]))
+        for bad in rng.sample(["bogus", "oneshot", "kill", "as_dict", "_cache", "Name"], rng.randrange(1, 4)):
+            raw.insert(rng.randrange(len(raw) + 1), bad)
     if flavour == "policy":
         raw += [e[0] for e in env]
     return {"op": "asdict", "kind": "names", "raw": raw, "env": env, "ctor": ctor}
